@@ -9,6 +9,10 @@ TRUST = ('Trusted: nightly MIR == what stable rustc builds (counterexamples are 
          '(listed per run in the evidence, validated by the concrete differential self-test against the native binary). ')
 
 CLAIMED = {
+    'C05': ('One inductive step of the real Ldap::next_msgid from an arbitrary pre-state: the counter ranges over all of 0..=2^31-1 and the in-use set is an unconstrained z3 array; on every path z3 proves the issued ID is in 1..2^31-1, not in use, inserted (and nothing else changes), becomes the counter, and is the first free successor in cyclic order MAX->1, with no overflow panic at the wrap-around point.',
+            TRUST + 'Fewer than 5 (17) consecutive occupied successors (cut recorded); atomicity across handles/threads rests on the mutex guard being held over the whole body, checked syntactically on the MIR; that release sites only remove their own ID belongs to C13/C01.', '§6 C05'),
+    'C15': ('Every feasible path of the real SearchEntry::construct over well-formed entries with <=2 attributes x <=2 (3) values of 0..3 (4) fully symbolic bytes: z3 proves DN equality, exactly-one-map membership, text map iff all values valid UTF-8 with values in order, binary map = multiset of values. Every valid/invalid UTF-8 pattern in every order is covered because validity is left to the solver.',
+            TRUST + 'Attribute descriptions within an entry are distinct and valid UTF-8; HashMap modelled as association list with symbolic key equality.', '§6 C15'),
     'C03': ('A symbolic response model (result code 0..2^31-1 in 1..4 octets, message ID, any response tag, UTF-8 matched DN / text, referral list, SASL credentials, extended name/value, controls with OID/criticality/value; short and 81/82/84 long length forms) is reference-encoded and pushed through the real decode_inner -> parse_controls -> LdapResultExt::from; z3 proves every returned field equal to the model on every path. success()/non_error()/equal() of all four wrapper types are decided for all 2^32 result codes.',
             TRUST + 'Strings <=2 (3) bytes, <=1 (2) referrals and controls; quick tier ties the length form of all inner levels. Result codes longer than 4 content octets are outside RFC 4511.', '§6 C03'),
     'C06': ('Every feasible path of the real decode_inner/parse_tag MIR over every byte string of <=6 (8) bytes is checked against an independent header reader (need-more iff the first TLV is incomplete and then nothing is consumed; exact consumption), and for each well-formed message skeleton with all content bytes symbolic: every proper prefix says need-more, and the item is identical whatever bytes follow. z3 discharges each obligation; counterexamples are replayed natively.',
